@@ -14,6 +14,10 @@ CHECKS['C08'] = dict(tech='exhaustive truth-table enumeration + Hypothesis wide-
              text='Full truth tables of every accepted configuration below the width/arity bound; widths to 128 and arities to 9 sampled. Exploration: complete below the bound, sampled above it.',
              note='Trusted: reference truth-table functions in pbt/cat_logic.py. One-hot selectors judged on one-hot/zero selects only; PriorityEncoder direction pinned by the existing unit test.',
              ref='DESIGN.md 2/C08')
+CHECKS['C12'] = dict(tech='exhaustive enumeration of all 2^16 half patterns + boundary grid and Hypothesis sampling of single/double patterns against struct; Fraction oracle for FPNum arithmetic; modular-integer oracle for two\'s complement and FixedPoint',
+             text='Every conversion direction (bits->float, float->bits, bits->FPNum->bits in same/wider/narrower format, pack/unpack) is checked bit-exactly against the platform encoding: complete for half precision, sign x exponent x mantissa-boundary grid plus random patterns for single/double. FPNum add/sub/mul/neg/abs/div2/compare are compared with exact rationals. Exploration.',
+             note='Trusted: struct (IEEE-754 binary16/32/64), fractions.Fraction. NaN payloads excepted; narrowing only on representable values.',
+             ref='DESIGN.md 2/C12')
 NOT_APPLICABLE = {}
 
 def main():
